@@ -198,6 +198,8 @@ func init() {
 			return ite(ok, a[1], old), ok
 		}))
 	}
+	reg("sync/atomic.(*Value).Load", nil, atomicRMW(func(vc *VC, old Term, a []Term, t types.Type) (Term, Term) { return "", old }))
+	reg("sync/atomic.(*Value).Store", []string{"recv"}, atomicRMW(func(vc *VC, old Term, a []Term, t types.Type) (Term, Term) { return a[0], "" }))
 	reg("sync/atomic.(*Bool).Load", nil, atomicRMW(func(vc *VC, old Term, a []Term, t types.Type) (Term, Term) { return "", old }))
 	reg("sync/atomic.(*Bool).Store", []string{"recv"}, atomicRMW(func(vc *VC, old Term, a []Term, t types.Type) (Term, Term) { return a[0], "" }))
 	reg("sync/atomic.(*Bool).Swap", []string{"recv"}, atomicRMW(func(vc *VC, old Term, a []Term, t types.Type) (Term, Term) { return a[0], old }))
@@ -273,6 +275,9 @@ func (fr *Frame) lockEvent(in ssa.Instruction, mu *Val, acquire bool) {
 	pre := fr.cur
 	post := pre.Havoc(only, "lk")
 	for _, g := range guarded {
+		if strings.HasPrefix(g, "G|") {
+			continue
+		}
 		oldA, newA := pre.Get(g), post.Get(g)
 		vc.S.Assert(fmt.Sprintf("(forall ((r Int)) (! (=> (not (= r %s)) (= (select %s r) (select %s r))) :pattern ((select %s r))))", mu.P.Ref, newA, oldA, newA))
 	}
